@@ -60,11 +60,11 @@ Record Msgs (ts : list task) (l : list ev) (later : nat -> Prop) : Prop := {
   m_all : forall k tk, nth_error ts k = Some tk -> unspawned tk -> later k \/ exists e, In e l /\ epay e = msg_of k;
   m_later : forall k, later k -> exists tk, nth_error ts k = Some tk /\ unspawned tk }.
 
-(* In this fragment no timer is ever cancelled: every slot holds a timer until it is popped,
-   and the slot next_wakeup was scheduled for is still there. *)
+(* In this fragment a timer that is registered when an event ends is never cancelled (a Sleep
+   that is reset or dropped is so within the poll that registered it): the slot next_wakeup
+   was scheduled for still holds its timer. *)
 Definition NwLive (dr : driver) : Prop := forall w, next_wakeup dr = Some w -> ents_at w (pending dr) <> [].
-Definition AllLive (dr : driver) : Prop := forall d es, In (d, es) (pending dr) -> es <> [].
-Definition Extra (l : N) (dr : driver) : Prop := Snap l dr /\ NwLive dr /\ AllLive dr.
+Definition Extra (l : N) (dr : driver) : Prop := Snap l dr /\ NwLive dr.
 
 (* at an event boundary; l0, l1: the instants of the last event of module 0 / 1 *)
 Record WInv (ts0 : list task) (later : nat -> Prop) (w : world) : Prop := {
